@@ -96,7 +96,7 @@ def one(src):
 
 
 def main():
-    srcs = sorted(glob.glob('/tmp/wt/C*/out/ref*') + glob.glob('/tmp/wt/R*/out/ref[0-9]') + glob.glob('/tmp/wt/S*/out/ref[0-9]') + glob.glob('/tmp/wt/T*/out/ref[0-9]'))
+    srcs = sorted(glob.glob('/tmp/wt/C*/out/ref*') + glob.glob('/tmp/wt/R*/out/ref[0-9]') + glob.glob('/tmp/wt/S*/out/ref[0-9]') + glob.glob('/tmp/wt/T*/out/ref[0-9]') + glob.glob('/tmp/wt/U*/out/ref[0-9]'))
     if len(sys.argv) > 1:
         srcs = [s for s in srcs if any(a in s for a in sys.argv[1:])]
     with concurrent.futures.ThreadPoolExecutor(6) as ex:
